@@ -15,6 +15,7 @@ LISTS = {
     'V2': f'u16, {A}<usize,8>, {V}<{A}<u32,16>>, u8, {A}<u32,4>',
     'V3': f'usize, {V}<u8>, {A}<usize,8>, {V}<{A}<u16,4>>, u8',
     'M1': f'{F}<u16>, u32, {A}<usize,8>, {V}<{A}<u32,8>>',
+    'M2': f'usize, {V}<u32>, {A}<u32,8>, {F}<u64>',   # mixed: span, aligned plain, then 8-byte objects of alignment 1 as the last parameter
     'V4': f'usize, {V}<u8>, {A}<u32,8>',        # span whose length differences hide in the padding in front of an aligned field
     'N1': f'{F}<Tr>, Tr',
     'N2': f'{A}<usize,8>, {V}<Tr>, Tr',
@@ -34,7 +35,7 @@ LISTS = {
     'S16': f'{F}<u16>',                          # one multi-byte field: byte order != numeric order
     'R1': f'u32, {F}<u32>',                     # one trivially swappable/assignable run of 4 + 4n bytes, n up to 15 (C11)
 }
-TWO_SPAN = {'F2', 'V3', 'M1'}
+TWO_SPAN = {'F2', 'V3', 'M1', 'M2'}
 TRIVIAL = ['P1', 'P2', 'F1', 'F2', 'V1', 'V2', 'V3', 'M1']
 NONTRIVIAL = ['N1', 'N2', 'N3']
 CORE = TRIVIAL + NONTRIVIAL
@@ -316,7 +317,7 @@ def pool_layout(prop, tier, seed, reserved=False):
 
 
 # ---- per property plans ---------------------------------------------------------------------------------------------
-def c01(tier, seed): return pool_seq('C01', CORE, tier)
+def c01(tier, seed): return pool_seq('C01', CORE + (['M2', 'V4'] if tier == 'thorough' else []), tier)
 
 
 def c02(tier, seed):
@@ -335,7 +336,7 @@ def c02(tier, seed):
 
 def c03(tier, seed):
     obs = pool_layout('C03', tier, seed)
-    al = ['P2', 'F2', 'V2', 'V3', 'M1']
+    al = ['P2', 'F2', 'V2', 'V3', 'M1', 'M2']
     obs += pool_seq('C03', al, tier, ops_filter=['OP_ERASE', 'OP_RESERVE', 'OP_ERASE_RANGE'] if tier == 'quick' else None)
     obs += pool_copy('C03', al if tier == 'thorough' else ['V2', 'F2', 'M1'], tier, akinds=('st-ne',), ops=['OP_COPY_CTOR', 'OP_COPY_ASSIGN', 'OP_MOVE_ASSIGN', 'OP_SWAP'])
     return obs
@@ -343,7 +344,7 @@ def c03(tier, seed):
 
 def c04(tier, seed):
     obs = pool_layout('C04', tier, seed)
-    obs += pool_seq('C04', ['V1', 'V3', 'M1', 'F2'] if tier == 'quick' else CORE, tier, ops_filter=['OP_ERASE', 'OP_RESERVE'] if tier == 'quick' else None)
+    obs += pool_seq('C04', ['V1', 'V3', 'M1', 'M2', 'F2'] if tier == 'quick' else CORE + ['M2'], tier, ops_filter=['OP_ERASE', 'OP_RESERVE'] if tier == 'quick' else None)
     obs += pool_copy('C04', ['F1', 'F2', 'M1'] if tier == 'quick' else ['F1', 'F2', 'M1', 'N1', 'N3', 'V1'], tier, akinds=('ae', 'st-ne'), ops=['OP_SWAP', 'OP_MOVE_ASSIGN', 'OP_COPY_ASSIGN'])
     for o in obs:
         if o['harness'] in ('h_seq.cpp', 'h_copy.cpp'): o['also'] = {'C01': 'C04', 'C09': 'C04'}   # span counts / get_fixed_size / field placement are C04's clauses
